@@ -1,50 +1,219 @@
 import RawPanelVerif.Lemmas.SvgLemmas
+import RawPanelVerif.Lemmas.SvgPrint
+import RawPanelVerif.Lemmas.SvgShape
 /-!
 # C15 — Composite panel SVG contains exactly the visible components, correctly placed
 
 Property theorems only.  The statement is `Spec.Svg.checkSVG` (Spec/SvgSpec.lean), the predicate the check also
-evaluates on the element list the real `GenerateCompositeSVGdoc` appended to the base document.
+evaluates on the element list the real `GenerateCompositeSVGdoc` appended to the base document and on the text the
+real printer wrote for each element.
 Everything is for **all** topologies (as in C13), all availability maps (nil, empty, any entries), all four render
-switches, every rotation-format table and both outcomes of parsing the base SVG.
+switches, every rotation-format table, every token stream of the base document and **all byte strings** as labels,
+styles and other texts.
 
-* `svg_holds`                  the model's output satisfies every clause of the Spec.
-* `bad_svg_gives_empty`        unparsable base ⇒ no document (`GenerateCompositeSVG` returns "").
-* `masked_contribute_nothing`  a masked component contributes no element; the output is the concatenation of the
-                               groups of the visible components, in order.
-* `one_main_shape_per_visible` the elements carrying an `id` attribute are exactly one per visible component, in order,
-                               with value `HWc<id>`.
-* `main_shape_geometry`        `rect` iff the resolved height is > 0, centred on (X,Y): x = X − W/2, y = Y − H/2 (Go division);
-                               otherwise `circle` at (X,Y) with r = W/2.
-* `label_count_le_two`, `label_count_pos` label lines: 1 or 2 when labels are rendered, 0 otherwise.
-* `id_text_present`            when ids are rendered the group ends with a `text` element whose content is the decimal id.
-Partial (trusted, checked on the implementation by the harness only): well-formedness of the printed XML and
-"keeps the base document's content" rest on `go-xmldom` / `encoding/xml`.
+What is proved, what is observed
+* **Proved** (about the model, which the correspondence check ties to the code element by element, attribute by
+  attribute and printed byte by printed byte):
+  * `svg_appended_holds`         the appended elements satisfy `Spec.Svg.checkAppended`: every one is well-formed as
+                                 printed (`wf-names`, `wf-printed`) and they are exactly the groups of the visible
+                                 components (`main`, `group`, `extra-nodes`, `missing-main`), including the rotation
+                                 (`transform`) of main shape and sub-shapes and `rx`/`ry`/`style` of the sub-shapes.
+  * `svg_verdict_is_observation` the verdict of the whole predicate `checkSVG` on the model's output is, for a valid
+                                 base, exactly the verdict on the observed flags (`Spec.Svg.observedOk`), and `none`
+                                 (= holds) for an invalid base; `svg_holds` is the same with the flags assumed good.
+  * `appended_wellformed`, `printed_wellformed_any_node`, `attr_names_distinct`  well-formedness of the appended part:
+                                 names, no attribute twice, and the printed text of ANY node is
+                                 `<name a="v"… />` / `<name a="v"…>content</name>` with well-formed values and content.
+  * `bad_svg_gives_empty`        a base whose `encoding/xml` token stream ends in an error, is empty, or has no
+                                 start element (only a declaration / comments / white space) ⇒ the parser result is
+                                 `err` or `noRoot` and the result is `none` (the string wrapper returns ""); no panic
+                                 is possible because the model is total and equal to the code on the checked inputs.
+  * `parse_root_iff_valid`, `valid_base_gives_document`  the parser finds a root exactly for the valid bases, and
+                                 then a document is produced.
+  * `masked_contribute_nothing`, `one_main_shape_per_visible`, `main_shape_geometry`, `label_count_le_two`,
+    `label_count_pos`, `id_text_present`  as before.
+  * `label_positions`, `label_spacing`, `text_transform`  what the property text leaves open but the code fixes:
+                                 label line `a` of `cnt` sits at x = X, y = Y + 27 + 30·a − (cnt·30)/2; consecutive
+                                 lines are 30 apart; the texts rotate with the component.
+* **Observed** on the implementation only (flags in every record, part of `checkSVG`, not proved): "keeps the base
+  document's content" (`kept`, `kept2`: tree comparison and `encoding/xml` token-stream containment), the whole
+  printed document re-parses (`wellformed`) and ends with the printed appended elements (`tail`).  They concern the
+  base document, `go-xmldom`'s parser and its printing of the base part, which are parameters of the model.
 -/
 namespace RawPanelVerif.C15
 open RawPanelVerif RawPanelVerif.Topo RawPanelVerif.Topo.Svg
 
-theorem svg_holds (rot : Str → RotInfo) (baseOk : Bool) (o : SvgOpts) (t : Topology) (mask : Option (List (Nat × Nat))) :
-    Spec.Svg.checkSVG o t mask baseOk (compositeNodes rot baseOk o t mask) true true = none := by
-  unfold compositeNodes Spec.Svg.checkSVG
-  cases baseOk with
-  | false => rfl
-  | true =>
-    simp only [if_true, Bool.not_true, Bool.false_eq_true, if_false]
+/-- the model's output paired with the text the (modelled) printer writes for each element -/
+def withPrinted (r : Option (List SvgNode)) : Option (List (SvgNode × Str)) :=
+  r.map (fun l => l.map (fun n => (n, printNode n)))
+
+/-! ## the parser result -/
+
+theorem rootSet_eq (kinds : Str) (acc : Bool) :
+    kinds.foldl (fun (seen : Bool) k => if k = 83 then true else seen) acc = (acc || kinds.contains 83) := by
+  induction kinds generalizing acc with
+  | nil => simp
+  | cons k r ih =>
+    simp only [List.foldl_cons, ih, List.contains_cons]
+    by_cases h : k = 83
+    · subst h; simp
+    · have h' : ((83 : UInt8) == k) = false := beq_eq_false_iff_ne.mpr (fun e => h e.symm)
+      simp [h, h']
+
+/-- `xmldom.Parse` finds a root exactly when the base is valid in the Spec's sense (tokenizes to the end, has an element) -/
+theorem parse_root_iff_valid (kinds : Str) (endOk : Bool) :
+    parseXML kinds endOk = .root ↔ Spec.Svg.baseOk kinds endOk = true := by
+  unfold parseXML Spec.Svg.baseOk
+  cases kinds with
+  | nil => simp
+  | cons k r =>
+    simp only [rootSet_eq, Bool.false_or]
+    cases endOk <;> cases (k :: r).contains 83 <;> simp
+
+/-- An unparsable base SVG yields an empty result: when the token stream of the base ends in an error, or is empty, or
+contains no start element (only an XML declaration, comments, white space — `ParseXML` then returns `err == nil`
+with `Root == nil`), the parser result is `err` or `noRoot` and nothing is returned, whatever the topology, map and
+switches. -/
+theorem bad_svg_gives_empty (rot : Str → RotInfo) (kinds : Str) (endOk : Bool) (o : SvgOpts) (t : Topology)
+    (mask : Option (List (Nat × Nat))) (h : endOk = false ∨ (83 : UInt8) ∉ kinds) :
+    (parseXML kinds endOk = .err ∨ parseXML kinds endOk = .noRoot) ∧
+    compositeNodes rot kinds endOk o t mask = none := by
+  have hb : Spec.Svg.baseOk kinds endOk = false := by
+    unfold Spec.Svg.baseOk
+    rcases h with h | h
+    · simp [h]
+    · simp [h]
+  have hp : parseXML kinds endOk ≠ .root := by
+    intro e
+    rw [parse_root_iff_valid, hb] at e
+    cases e
+  unfold compositeNodes compositeNodesP
+  cases hpr : parseXML kinds endOk with
+  | err => exact ⟨Or.inl rfl, rfl⟩
+  | noRoot => exact ⟨Or.inr rfl, rfl⟩
+  | root => exact absurd hpr hp
+
+/-- both non-root parser results (error; no error but `Root == nil`) give the empty result -/
+theorem no_root_gives_empty (rot : Str → RotInfo) (o : SvgOpts) (t : Topology) (mask : Option (List (Nat × Nat))) :
+    compositeNodesP rot .err o t mask = none ∧ compositeNodesP rot .noRoot o t mask = none := ⟨rfl, rfl⟩
+
+theorem valid_base_gives_document (rot : Str → RotInfo) (kinds : Str) (endOk : Bool) (o : SvgOpts) (t : Topology)
+    (mask : Option (List (Nat × Nat))) (h : Spec.Svg.baseOk kinds endOk = true) :
+    compositeNodes rot kinds endOk o t mask = some (t.hwc.flatMap (componentNodes rot o t mask)) := by
+  unfold compositeNodes compositeNodesP
+  rw [(parse_root_iff_valid kinds endOk).mpr h]
+
+/-! ## well-formedness of the appended part -/
+
+/-- the text printed for ANY node — arbitrary bytes as attribute values and content — is accepted by the Spec's
+recogniser: values are `AttValue` bodies, content is character data with references, valid UTF-8 of XML `Char`s -/
+theorem printed_wellformed_any_node (n : SvgNode) : Spec.Svg.printedOk n (printNode n) = true :=
+  printedOk_printNode n
+
+theorem appended_wellformed (rot : Str → RotInfo) (kinds : Str) (endOk : Bool) (o : SvgOpts) (t : Topology)
+    (mask : Option (List (Nat × Nat))) (nodes : List SvgNode) (h : compositeNodes rot kinds endOk o t mask = some nodes) :
+    ∀ n ∈ nodes, Spec.Svg.appendedOk (n, printNode n) = none := by
+  intro n hn
+  have hg : Good n := by
+    unfold compositeNodes compositeNodesP at h
+    split at h
+    · cases h
+    · cases h
+    · simp only [Option.some.injEq] at h
+      subst h
+      simp only [List.mem_flatMap] at hn
+      obtain ⟨c, _, hc⟩ := hn
+      exact good_componentNodes rot o t mask c n hc
+  simp [Spec.Svg.appendedOk, shapeOk_of_good n hg, printedOk_printNode n]
+
+/-- no attribute name twice, every name one of the 21 the generator uses, every element a rect, circle or text -/
+theorem attr_names_distinct (rot : Str → RotInfo) (kinds : Str) (endOk : Bool) (o : SvgOpts) (t : Topology)
+    (mask : Option (List (Nat × Nat))) (nodes : List SvgNode) (h : compositeNodes rot kinds endOk o t mask = some nodes) :
+    ∀ n ∈ nodes, (n.attrs.map (·.1)).Nodup ∧ (∀ k ∈ n.attrs.map (·.1), k ∈ attrWhitelist) ∧
+      (n.name = b "rect" ∨ n.name = b "circle" ∨ n.name = b "text") := by
+  intro n hn
+  unfold compositeNodes compositeNodesP at h
+  split at h
+  · cases h
+  · cases h
+  · simp only [Option.some.injEq] at h
+    subst h
+    simp only [List.mem_flatMap] at hn
+    obtain ⟨c, _, hc⟩ := hn
+    have hg := good_componentNodes rot o t mask c n hc
+    exact ⟨hg.nodup, hg.wl, hg.name⟩
+
+theorem firstErr_none (l : List SvgNode) (h : ∀ n ∈ l, Spec.Svg.appendedOk (n, printNode n) = none) :
+    Spec.Svg.firstErr (l.map (fun n => (n, printNode n))) = none := by
+  induction l with
+  | nil => rfl
+  | cons a r ih =>
+    simp only [List.map_cons, Spec.Svg.firstErr, h a (List.mem_cons_self)]
+    exact ih (fun n hn => h n (List.mem_cons_of_mem _ hn))
+
+/-! ## the main statements -/
+
+/-- the part of the property about what is ADDED holds of the model for all inputs: every appended element is
+well-formed as printed, and the appended elements are exactly the groups of the visible components -/
+theorem svg_appended_holds (rot : Str → RotInfo) (kinds : Str) (endOk : Bool) (o : SvgOpts) (t : Topology)
+    (mask : Option (List (Nat × Nat))) (nodes : List SvgNode) (h : compositeNodes rot kinds endOk o t mask = some nodes) :
+    Spec.Svg.checkAppended (fmtOf rot) o t mask (nodes.map (fun n => (n, printNode n))) = none := by
+  unfold Spec.Svg.checkAppended
+  rw [firstErr_none nodes (appended_wellformed rot kinds endOk o t mask nodes h)]
+  simp only [List.map_map]
+  have e : (nodes.map ((fun (x : SvgNode × Str) => x.1) ∘ fun n => (n, printNode n))) = nodes := by
+    simp [Function.comp_def]
+  rw [e]
+  unfold compositeNodes compositeNodesP at h
+  split at h
+  · cases h
+  · cases h
+  · simp only [Option.some.injEq] at h
+    subst h
     exact groups_ok rot o t mask t.hwc
 
-theorem bad_svg_gives_empty (rot : Str → RotInfo) (o : SvgOpts) (t : Topology) (mask : Option (List (Nat × Nat))) :
-    compositeNodes rot false o t mask = none := rfl
+/-- The verdict of the whole predicate on the model's output: for a valid base it is exactly the verdict on the
+OBSERVED flags (base content kept, whole document re-parses, printed tail) — everything else is proved; for an
+invalid base the predicate holds. -/
+theorem svg_verdict_is_observation (rot : Str → RotInfo) (kinds : Str) (endOk : Bool) (o : SvgOpts) (t : Topology)
+    (mask : Option (List (Nat × Nat))) (ob : Spec.Svg.Observed) :
+    Spec.Svg.checkSVG (fmtOf rot) o t mask kinds endOk (withPrinted (compositeNodes rot kinds endOk o t mask)) ob
+      = if Spec.Svg.baseOk kinds endOk then Spec.Svg.observedOk ob else none := by
+  cases hb : Spec.Svg.baseOk kinds endOk with
+  | false =>
+    have hn : compositeNodes rot kinds endOk o t mask = none := by
+      unfold compositeNodes compositeNodesP
+      cases hp : parseXML kinds endOk with
+      | err => rfl
+      | noRoot => rfl
+      | root => rw [parse_root_iff_valid, hb] at hp; cases hp
+    simp [hn, withPrinted, Spec.Svg.checkSVG, hb]
+  | true =>
+    have hs := valid_base_gives_document rot kinds endOk o t mask hb
+    have ha := svg_appended_holds rot kinds endOk o t mask _ hs
+    rw [hs]
+    simp only [withPrinted, Option.map_some, Spec.Svg.checkSVG, hb, Bool.not_true, Bool.false_eq_true, if_false, if_true]
+    cases Spec.Svg.observedOk ob with
+    | some e => rfl
+    | none => exact ha
+
+/-- with the observed flags good, the model's output satisfies every clause of the Spec -/
+theorem svg_holds (rot : Str → RotInfo) (kinds : Str) (endOk : Bool) (o : SvgOpts) (t : Topology)
+    (mask : Option (List (Nat × Nat))) (ob : Spec.Svg.Observed) (hob : Spec.Svg.observedOk ob = none) :
+    Spec.Svg.checkSVG (fmtOf rot) o t mask kinds endOk (withPrinted (compositeNodes rot kinds endOk o t mask)) ob = none := by
+  rw [svg_verdict_is_observation, hob]
+  simp
 
 theorem masked_contribute_nothing (rot : Str → RotInfo) (o : SvgOpts) (t : Topology) (mask : Option (List (Nat × Nat))) :
     (∀ c, Spec.Svg.visible mask c = false → componentNodes rot o t mask c = []) ∧
-    compositeNodes rot true o t mask
+    compositeNodesP rot .root o t mask
       = some ((t.hwc.filter (Spec.Svg.visible mask)).flatMap (componentNodes rot o t none)) := by
   have h1 : ∀ c, Spec.Svg.visible mask c = false → componentNodes rot o t mask c = [] := by
     intro c hv
     have hm : masked mask c.id = true := by rw [visible_eq] at hv; simpa using hv
     simp [componentNodes, hm]
   refine ⟨h1, ?_⟩
-  simp only [compositeNodes, if_true, Option.some.injEq]
+  simp only [compositeNodesP, Option.some.injEq]
   induction t.hwc with
   | nil => rfl
   | cons c r ih =>
@@ -59,8 +228,8 @@ theorem masked_contribute_nothing (rot : Str → RotInfo) (o : SvgOpts) (t : Top
       exact ih
 
 /-- Spec-level consequence of the group check: the `id`-carrying elements are the main shapes, one per component -/
-theorem ids_of_groups (o : SvgOpts) (t : Topology) (cs : List HWc) (nodes : List SvgNode)
-    (h : Spec.Svg.checkGroups o t cs nodes = none) :
+theorem ids_of_groups (fmt : Str → Str) (o : SvgOpts) (t : Topology) (cs : List HWc) (nodes : List SvgNode)
+    (h : Spec.Svg.checkGroups fmt o t cs nodes = none) :
     (nodes.filter (fun n => (Spec.Svg.attr n "id").isSome)).map (fun n => Spec.Svg.attr n "id")
       = cs.map (fun c => some (Spec.Svg.bytes "HWc" ++ Spec.Svg.dec c.id)) := by
   induction cs generalizing nodes with
@@ -80,22 +249,22 @@ theorem ids_of_groups (o : SvgOpts) (t : Topology) (cs : List HWc) (nodes : List
         · cases h
         · rename_i hg
           simp only [Bool.not_eq_true, Bool.not_eq_false] at hm hg
-          have hm' : Spec.Svg.mainOk c (Spec.Topo.resolved t c) m = true := by
-            cases hx : Spec.Svg.mainOk c (Spec.Topo.resolved t c) m with
+          have hm' : Spec.Svg.mainOk fmt c (Spec.Topo.resolved t c) m = true := by
+            cases hx : Spec.Svg.mainOk fmt c (Spec.Topo.resolved t c) m with
             | true => rfl
             | false => simp [hx] at hm
-          have hg' : Spec.Svg.allOk c (Spec.Svg.slots o c (Spec.Topo.resolved t c))
+          have hg' : Spec.Svg.allOk fmt c (Spec.Topo.resolved t c) (Spec.Svg.slots o c (Spec.Topo.resolved t c))
               (rest.take (Spec.Svg.slots o c (Spec.Topo.resolved t c)).length) = true := by
-            cases hx : Spec.Svg.allOk c (Spec.Svg.slots o c (Spec.Topo.resolved t c))
+            cases hx : Spec.Svg.allOk fmt c (Spec.Topo.resolved t c) (Spec.Svg.slots o c (Spec.Topo.resolved t c))
               (rest.take (Spec.Svg.slots o c (Spec.Topo.resolved t c)).length) with
             | true => rfl
             | false => simp [hx] at hg
           have hid : Spec.Svg.attr m "id" = some (Spec.Svg.bytes "HWc" ++ Spec.Svg.dec c.id) := by
             unfold Spec.Svg.mainOk at hm'
             simp only [Bool.and_eq_true, beq_iff_eq] at hm'
-            exact hm'.1
+            exact hm'.1.1
           -- no element of the group carries an id
-          have hnone : ∀ (sl : List Spec.Svg.Slot) (g : List SvgNode), Spec.Svg.allOk c sl g = true →
+          have hnone : ∀ (sl : List Spec.Svg.Slot) (g : List SvgNode), Spec.Svg.allOk fmt c (Spec.Topo.resolved t c) sl g = true →
               g.filter (fun n => (Spec.Svg.attr n "id").isSome) = [] := by
             intro sl
             induction sl with
@@ -113,8 +282,8 @@ theorem ids_of_groups (o : SvgOpts) (t : Topology) (cs : List HWc) (nodes : List
                 have hn : Spec.Svg.attr n "id" = none := by
                   have := hg.1
                   cases s <;> simp only [Spec.Svg.slotOk, Bool.and_eq_true, beq_iff_eq] at this
+                  · exact this.1.1.1.1.1.2
                   · exact this.1.1.1.1.2
-                  · exact this.1.1.1.2
                   · exact this.1.1.2
                   · exact this.2
                   · exact this.1.2
@@ -127,12 +296,12 @@ theorem ids_of_groups (o : SvgOpts) (t : Topology) (cs : List HWc) (nodes : List
           rw [ih _ h]
 
 theorem one_main_shape_per_visible (rot : Str → RotInfo) (o : SvgOpts) (t : Topology) (mask : Option (List (Nat × Nat)))
-    (nodes : List SvgNode) (h : compositeNodes rot true o t mask = some nodes) :
+    (nodes : List SvgNode) (h : compositeNodesP rot .root o t mask = some nodes) :
     (nodes.filter (fun n => (Spec.Svg.attr n "id").isSome)).map (fun n => Spec.Svg.attr n "id")
       = (t.hwc.filter (Spec.Svg.visible mask)).map (fun c => some (Spec.Svg.bytes "HWc" ++ Spec.Svg.dec c.id)) := by
-  simp only [compositeNodes, if_true, Option.some.injEq] at h
+  simp only [compositeNodesP, Option.some.injEq] at h
   subst h
-  exact ids_of_groups o t _ _ (groups_ok rot o t mask t.hwc)
+  exact ids_of_groups (fmtOf rot) o t _ _ (groups_ok rot o t mask t.hwc)
 
 theorem main_shape_geometry (rot : Str → RotInfo) (c : HWc) (td : TypeDef) :
     let m := mainShape rot c td
@@ -146,7 +315,7 @@ theorem main_shape_geometry (rot : Str → RotInfo) (c : HWc) (td : TypeDef) :
   have h := mainOk_mainShape rot c td
   unfold Spec.Svg.mainOk at h
   simp only [Bool.and_eq_true, beq_iff_eq] at h
-  refine ⟨h.1, ?_, ?_⟩
+  refine ⟨h.1.1, ?_, ?_⟩
   · intro hp
     have h2 := h.2
     simp only [hp, if_true, Bool.and_eq_true, beq_iff_eq] at h2
@@ -184,30 +353,241 @@ theorem id_text_present (rot : Str → RotInfo) (o : SvgOpts) (c : HWc) (td : Ty
   refine ⟨_, rfl, ?_, rfl⟩
   split <;> simp [setAttrs_cons, setAttrs_nil, name_setAttr, name_withRotate]
 
+/-! ## rotation and the optional attributes of the shapes (clauses `main`, `group` of the Spec, spelled out) -/
+
+/-- a shape carries a `transform` exactly when the resolved rotation is not zero (neither `0` nor `-0`) -/
+theorem transform_present_iff (fmt : Str → Str) (c : HWc) (td : TypeDef) :
+    (Spec.Svg.wantTransform fmt c td).isSome = !rotIsZero td.rotate := by
+  unfold Spec.Svg.wantTransform
+  cases rotIsZero td.rotate <;> rfl
+
+theorem shape_rotation (rot : Str → RotInfo) (c : HWc) (td : TypeDef) :
+    Spec.Svg.attr (mainShape rot c td) "transform" = Spec.Svg.wantTransform (fmtOf rot) c td ∧
+    ∀ s, ∀ n ∈ subShapes rot c td s,
+      Spec.Svg.attr n "transform" = Spec.Svg.wantTransform (fmtOf rot) c td ∧
+      Spec.Svg.attr n "rx" = Spec.Svg.wantInt s.rx ∧ Spec.Svg.attr n "ry" = Spec.Svg.wantInt s.ry ∧
+      Spec.Svg.attr n "style" = Spec.Svg.wantStr s.style := by
+  constructor
+  · have h := mainOk_mainShape rot c td
+    unfold Spec.Svg.mainOk at h
+    simp only [Bool.and_eq_true, beq_iff_eq] at h
+    exact h.1.2
+  · intro s n hn
+    unfold subShapes at hn
+    simp only [List.mem_append] at hn
+    rcases hn with hn | hn
+    · split at hn
+      · simp only [List.mem_cons, List.not_mem_nil, or_false] at hn
+        subst hn
+        have h := subRect_ok rot c td s
+        simp only [Spec.Svg.slotOk, Spec.Svg.subExtraOk, Bool.and_eq_true, beq_iff_eq] at h
+        exact ⟨h.2.1.1.1, h.2.1.1.2, h.2.1.2, h.2.2⟩
+      · simp at hn
+    · split at hn
+      · simp only [List.mem_cons, List.not_mem_nil, or_false] at hn
+        subst hn
+        have h := subCircle_ok rot c td s
+        simp only [Spec.Svg.slotOk, Spec.Svg.subExtraOk, Bool.and_eq_true, beq_iff_eq] at h
+        exact ⟨h.2.1.1.1, h.2.1.1.2, h.2.1.2, h.2.2⟩
+      · simp at hn
+
+/-! ## what the property text leaves open and the code fixes: label positions, rotation of the texts -/
+
+theorem labelNode_xy (rot : Str → RotInfo) (o : SvgOpts) (c : HWc) (td : TypeDef) (ro : List Str) (cnt a : Nat) (txt : Str) :
+    Spec.Svg.attr (labelNode rot o c td ro cnt a txt) "x" = some (Spec.Svg.dec c.x) ∧
+    Spec.Svg.attr (labelNode rot o c td ro cnt a txt) "y"
+      = some (Spec.Svg.dec (c.y + 27 + (a : Int) * 30 - ((cnt : Int) * 30).tdiv 2)) := by
+  unfold labelNode
+  simp only [dec_eq_itoa]
+  split
+  · split <;>
+    simp (config := { decide := true }) [setAttrs_cons, setAttrs_nil, attr_setAttr, attr_empty, attr_mk]
+  · simp (config := { decide := true }) [setAttrs_cons, setAttrs_nil, attr_setAttr, attr_withRotate, attr_empty, attr_mk]
+
+theorem labelNodes_get (rot : Str → RotInfo) (o : SvgOpts) (c : HWc) (td : TypeDef) (ro : List Str) (a : Nat) (n : SvgNode)
+    (h : (labelNodes rot o c td ro)[a]? = some n) :
+    ∃ txt, n = labelNode rot o c td ro (labelNodes rot o c td ro).length a txt := by
+  unfold labelNodes at h ⊢
+  split
+  · rename_i hc
+    simp only [hc, if_true, List.getElem?_map, Option.map_eq_some_iff] at h
+    obtain ⟨a', ha', rfl⟩ := h
+    obtain ⟨_, hget⟩ := List.getElem?_eq_some_iff.mp ha'
+    simp only [List.getElem_range] at hget
+    subst hget
+    refine ⟨(splitOn 124 c.txt).getD a [], ?_⟩
+    simp
+  · rename_i hc
+    simp [hc] at h
+
+/-- label line `a` (counted from 0) of a component sits at x = X and y = Y + 27 + 30·a − (cnt·30)/2, `cnt` = the number
+of label lines of the component (1 or 2) and `/` Go's integer division -/
+theorem label_positions (rot : Str → RotInfo) (o : SvgOpts) (c : HWc) (td : TypeDef) (ro : List Str) (a : Nat) (n : SvgNode)
+    (h : (labelNodes rot o c td ro)[a]? = some n) :
+    Spec.Svg.attr n "x" = some (Spec.Svg.dec c.x) ∧
+    Spec.Svg.attr n "y"
+      = some (Spec.Svg.dec (c.y + 27 + (a : Int) * 30 - (((labelNodes rot o c td ro).length : Int) * 30).tdiv 2)) := by
+  obtain ⟨txt, rfl⟩ := labelNodes_get rot o c td ro a n h
+  exact labelNode_xy rot o c td ro _ a txt
+
+/-- consecutive label lines are 30 apart -/
+theorem label_spacing (rot : Str → RotInfo) (o : SvgOpts) (c : HWc) (td : TypeDef) (ro : List Str) (a : Nat) (n n' : SvgNode)
+    (h : (labelNodes rot o c td ro)[a]? = some n) (h' : (labelNodes rot o c td ro)[a + 1]? = some n') :
+    ∃ y : Int, Spec.Svg.attr n "y" = some (Spec.Svg.dec y) ∧ Spec.Svg.attr n' "y" = some (Spec.Svg.dec (y + 30)) := by
+  refine ⟨_, (label_positions rot o c td ro a n h).2, ?_⟩
+  rw [(label_positions rot o c td ro (a + 1) n' h').2]
+  congr 2
+  generalize (((labelNodes rot o c td ro).length : Int) * 30).tdiv 2 = k
+  omega
+
+/-- the id / type / display-size texts rotate with the component; a label line rotates with it too, by 90° more when
+the resolved type is taller than twice its width (and not at all when that sum is zero) -/
+theorem text_transform (rot : Str → RotInfo) (o : SvgOpts) (c : HWc) (td : TypeDef) (ro : List Str) :
+    (∀ n ∈ idNode rot o c td ro ++ typeNode rot o c td ++ dispSizeNode rot o c td,
+      Spec.Svg.attr n "transform" = Spec.Svg.wantTransform (fmtOf rot) c td) ∧
+    (∀ cnt a txt, Spec.Svg.attr (labelNode rot o c td ro cnt a txt) "transform"
+      = if td.h > td.w * 2 then (if (rot td.rotate).zero90 then none else some (rotateStr (rot td.rotate).fmt90 c))
+        else Spec.Svg.wantTransform (fmtOf rot) c td) := by
+  constructor
+  · intro n hn
+    simp only [List.mem_append] at hn
+    rcases hn with (hn | hn) | hn
+    · unfold idNode at hn
+      split at hn
+      · simp only [List.mem_cons, List.not_mem_nil, or_false] at hn
+        subst hn
+        rw [attr_mk]
+        apply transform_fresh
+        split <;> simp (config := { decide := true }) [setAttrs_cons, setAttrs_nil, attr_setAttr, attr_empty]
+      · simp at hn
+    · unfold typeNode at hn
+      split at hn
+      · simp only [List.mem_cons, List.not_mem_nil, or_false] at hn
+        subst hn
+        rw [attr_mk]
+        apply transform_fresh
+        simp (config := { decide := true }) [setAttrs_cons, setAttrs_nil, attr_setAttr, attr_empty]
+      · simp at hn
+    · unfold dispSizeNode at hn
+      split at hn
+      · simp at hn
+      · split at hn
+        · simp only [List.mem_cons, List.not_mem_nil, or_false] at hn
+          subst hn
+          rw [attr_mk]
+          apply transform_fresh
+          simp (config := { decide := true }) [setAttrs_cons, setAttrs_nil, attr_setAttr, attr_empty]
+        · simp at hn
+  · intro cnt a txt
+    unfold labelNode
+    simp only [attr_mk]
+    split
+    · split
+      · simp (config := { decide := true }) [setAttrs_cons, setAttrs_nil, attr_setAttr, attr_empty]
+      · simp (config := { decide := true }) [setAttrs_cons, setAttrs_nil, attr_setAttr, attr_empty, bytes_eq]
+    · apply transform_fresh
+      simp (config := { decide := true }) [setAttrs_cons, setAttrs_nil, attr_setAttr, attr_empty]
+
 /-! ## non-vacuity -/
 
 def exRot : Str → RotInfo := fun tk =>
   if tk = [57, 48] then { fmt := b "90.000000", fmt90 := b "180.000000", zero90 := false }
+  else if tk = [45, 48] then { fmt := b "-0.000000", fmt90 := b "90.000000", zero90 := false }
   else { fmt := b "0.000000", fmt90 := b "90.000000", zero90 := false }
 def exO : SvgOpts := { showLabels := true, showHWCID := true, showType := false, showDisplaySize := false }
 def exT : Topology :=
-  { ti := [(1, { w := 100, h := 60, sub := [{ objType := [114], x := -5, y := -6, w := 10, h := 12 }, { objType := [100] }] }),
-           (2, { w := 80, rotate := [57, 48] })],
+  { ti := [(1, { w := 100, h := 60, sub := [{ objType := [114], x := -5, y := -6, w := 10, h := 12, rx := 3, style := b "a\"<" },
+                                             { objType := [100] }] }),
+           (2, { w := 80, rotate := [57, 48] }), (3, { w := 10, h := 30, rotate := [45, 48] })],
     hwc := [{ id := 1, x := 500, y := 300, txt := b "A|B", type := 1 }, { id := 2, x := 900, y := 300, txt := b "Knob", type := 2 },
-            { id := 3, x := 0, y := 0, type := 1 }] }
+            { id := 3, x := 0, y := 0, type := 1 }, { id := 4, x := 7, y := 8, txt := b "<&>", type := 3 }] }
+def obOk : Spec.Svg.Observed := { kept := true, kept2 := true, wellformed := true, tail := true }
+/-- token kinds of `<?xml …?>\n<svg></svg>`: P W S E -/
+def exKinds : Str := b "PWSE"
 
-/-- component 1: rect at (450,270) 100x60, one sub rect, two label lines, id text; component 2 masked out; component 3 visible -/
-example : (compositeNodes exRot true exO exT (some [(1, 1), (2, 0), (3, 7)])).map (fun l => l.map (fun n => (n.name, n.text)))
+/-- component 1: rect at (450,270) 100x60, one sub rect, two label lines, id text; component 2 masked out; 3, 4 visible -/
+example : (compositeNodes exRot exKinds true exO exT (some [(1, 1), (2, 0), (3, 7), (4, 1)])).map (fun l => l.map (fun n => (n.name, n.text)))
     = some [(b "rect", []), (b "rect", []), (b "text", b "A"), (b "text", b "B"), (b "text", b "1"),
-            (b "rect", []), (b "rect", []), (b "text", []), (b "text", b "3")] := by decide
-example : ((compositeNodes exRot true exO exT none).getD []).length = 12 := by decide
+            (b "rect", []), (b "rect", []), (b "text", []), (b "text", b "3"),
+            (b "rect", []), (b "text", b "<&>"), (b "text", b "4")] := by decide
+example : ((compositeNodes exRot exKinds true exO exT none).getD []).length = 15 := by decide
 example : Spec.Svg.attr (mainShape exRot exT.hwc[0] (Spec.Topo.resolved exT exT.hwc[0])) "x" = some (b "450") := by decide
 example : (mainShape exRot exT.hwc[1] (Spec.Topo.resolved exT exT.hwc[1])).attrs
     = [(b "cx", b "900"), (b "cy", b "300"), (b "r", b "40"), (b "transform", b "rotate(90.000000 900 300)"),
        (b "fill", b "#dddddd"), (b "stroke", b "#000"), (b "stroke-width", b "2"), (b "id", b "HWc2")] := by decide
-/-- the Spec rejects wrong outputs: a masked component drawn, a missing one, a document for a bad base -/
-example : Spec.Svg.checkSVG exO exT (some []) true (compositeNodes exRot true exO exT none) true true = some "extra-nodes" := by decide
-example : Spec.Svg.checkSVG exO exT none true (some []) true true = some "missing-main" := by decide
-example : Spec.Svg.checkSVG exO exT none false (some []) true true = some "bad-base-not-empty" := by decide
+/-- rotation `-0` is zero: no transform on the main shape (the label of this tall type is turned by 90°) -/
+example : Spec.Svg.attr (mainShape exRot exT.hwc[3] (Spec.Topo.resolved exT exT.hwc[3])) "transform" = none := by decide
+example : Spec.Svg.attr (labelNode exRot exO exT.hwc[3] (Spec.Topo.resolved exT exT.hwc[3]) [] 1 0 []) "transform"
+    = some (b "rotate(90.000000 7 8)") := by decide
+example : Spec.Svg.wantTransform (fmtOf exRot) exT.hwc[1] (Spec.Topo.resolved exT exT.hwc[1])
+    = some (b "rotate(90.000000 900 300)") := by decide
+/-- the sub rect of component 1 carries rx and style, no ry -/
+example : ((subShapes exRot exT.hwc[0] (Spec.Topo.resolved exT exT.hwc[0]) ((Spec.Topo.resolved exT exT.hwc[0]).sub.getD 0 {})).map
+      (fun n => (Spec.Svg.attr n "rx", Spec.Svg.attr n "ry", Spec.Svg.attr n "style")))
+    = [(some (b "3"), none, some (b "a\"<"))] := by decide
+/-- label positions: two lines at Y−3 and Y+27, one line at Y+12 -/
+example : ((labelNodes exRot exO exT.hwc[0] (Spec.Topo.resolved exT exT.hwc[0]) []).map (fun n => Spec.Svg.attr n "y"))
+    = [some (b "297"), some (b "327")] := by decide
+example : ((labelNodes exRot exO exT.hwc[1] (Spec.Topo.resolved exT exT.hwc[1]) []).map (fun n => Spec.Svg.attr n "y"))
+    = [some (b "312")] := by decide
+
+/-- the printer: escapes, U+FFFD for a control byte / invalid UTF-8 / U+FFFE, valid UTF-8 copied -/
+example : printNode { name := b "text", attrs := [(b "style", b "a\"<'")], text := [1, 0xC3, 0xA6, 0xFF, 38, 62, 0xEF, 0xBF, 0xBE, 9] }
+    = b "<text style=\"a&#34;&lt;&#39;\">" ++ [0xEF, 0xBF, 0xBD, 0xC3, 0xA6, 0xEF, 0xBF, 0xBD] ++ b "&amp;&gt;" ++
+      [0xEF, 0xBF, 0xBD] ++ b "&#x9;</text>" := by decide
+example : printNode { name := b "rect", attrs := [(b "x", b "1")] } = b "<rect x=\"1\" />" := by decide
+example : Spec.Svg.printedOk { name := b "rect", attrs := [(b "x", b "1")] } (b "<rect x=\"1\" />") = true := by decide
+/-- the recogniser rejects: raw `<` / raw `&` / `]]>` in content, raw `<` or a stray quote in a value, a control
+character, invalid UTF-8, U+FFFE, an unknown entity, a character reference to a non-Char, a wrong end tag -/
+example : Spec.Svg.printedOk { name := b "text", text := b "a<b" } (b "<text>a<b</text>") = false := by decide
+example : Spec.Svg.printedOk { name := b "text", text := b "a&b" } (b "<text>a&b</text>") = false := by decide
+example : Spec.Svg.printedOk { name := b "text", text := b "a]]>b" } (b "<text>a]]>b</text>") = false := by decide
+example : Spec.Svg.printedOk { name := b "text", text := b "a]]&gt;b" } (b "<text>a]]&gt;b</text>") = true := by decide
+example : Spec.Svg.printedOk { name := b "rect", attrs := [(b "style", b "a<")] } (b "<rect style=\"a<\" />") = false := by decide
+example : Spec.Svg.printedOk { name := b "rect", attrs := [(b "style", b "a\"b")] } (b "<rect style=\"a\"b\" />") = false := by decide
+example : Spec.Svg.printedOk { name := b "text", text := [1] } (b "<text>" ++ [1] ++ b "</text>") = false := by decide
+example : Spec.Svg.printedOk { name := b "text", text := [0xFF] } (b "<text>" ++ [0xFF] ++ b "</text>") = false := by decide
+example : Spec.Svg.printedOk { name := b "text", text := [0xEF, 0xBF, 0xBE] } (b "<text>" ++ [0xEF, 0xBF, 0xBE] ++ b "</text>") = false := by decide
+example : Spec.Svg.printedOk { name := b "text", text := [0xEF, 0xBF, 0xBD] } (b "<text>" ++ [0xEF, 0xBF, 0xBD] ++ b "</text>") = true := by decide
+example : Spec.Svg.printedOk { name := b "text", text := b "x" } (b "<text>&nbsp;</text>") = false := by decide
+example : Spec.Svg.printedOk { name := b "text", text := b "x" } (b "<text>&#0;</text>") = false := by decide
+example : Spec.Svg.printedOk { name := b "text", text := b "x" } (b "<text>&#xE6;&quot;</text>") = true := by decide
+example : Spec.Svg.printedOk { name := b "text", text := b "x" } (b "<text>x</tex>") = false := by decide
+/-- … and nodes with an attribute twice, a bad attribute name, an element that is none of rect / circle / text -/
+example : Spec.Svg.shapeOk { name := b "rect", attrs := [(b "rx", b "1"), (b "x", b "2"), (b "rx", b "1")] } = false := by decide
+example : Spec.Svg.shapeOk { name := b "rect", attrs := [(b "a b", b "1")] } = false := by decide
+example : Spec.Svg.shapeOk { name := b "g" } = false := by decide
+example : Spec.Svg.shapeOk { name := b "rect", attrs := [(b "rx", b "1"), (b "x", b "2")] } = true := by decide
+
+/-- the parser result: empty input = error; only a declaration / comments / blanks = no root; error at the end = error -/
+example : parseXML [] true = .err := by decide
+example : parseXML (b "P") true = .noRoot := by decide
+example : parseXML (b "PW") true = .noRoot := by decide
+example : parseXML (b "MM") true = .noRoot := by decide
+example : parseXML (b "S") false = .err := by decide
+example : parseXML exKinds true = .root := by decide
+example : compositeNodes exRot (b "PM") true exO exT none = none := by decide
+example : compositeNodes exRot (b "SS") false exO exT none = none := by decide
+example : Spec.Svg.baseOk (b "PM") true = false ∧ Spec.Svg.baseOk exKinds true = true := by decide
+
+/-- the Spec rejects wrong outputs: a masked component drawn, a missing one, a document for a bad base, no document for
+a valid base, a lost base element, an element printed without escaping, a wrong rotation -/
+example : Spec.Svg.checkSVG (fmtOf exRot) exO exT (some []) exKinds true (withPrinted (compositeNodes exRot exKinds true exO exT none)) obOk
+    = some "extra-nodes" := by decide
+example : Spec.Svg.checkSVG (fmtOf exRot) exO exT none exKinds true (some []) obOk = some "missing-main" := by decide
+example : Spec.Svg.checkSVG (fmtOf exRot) exO exT none (b "M") true (some []) obOk = some "bad-base-not-empty" := by decide
+example : Spec.Svg.checkSVG (fmtOf exRot) exO exT none exKinds true none obOk = some "nil-for-valid-base" := by decide
+example : Spec.Svg.checkSVG (fmtOf exRot) exO exT none exKinds true (withPrinted (compositeNodes exRot exKinds true exO exT none))
+    { obOk with kept2 := false } = some "base-content" := by decide
+example : Spec.Svg.checkSVG (fmtOf exRot) exO exT none exKinds true (withPrinted (compositeNodes exRot exKinds true exO exT none))
+    { obOk with wellformed := false } = some "wellformed" := by decide
+example : Spec.Svg.checkSVG (fmtOf exRot) exO exT none exKinds true (withPrinted (compositeNodes exRot exKinds true exO exT none)) obOk
+    = none := by decide
+example : Spec.Svg.checkSVG (fmtOf exRot) exO exT none exKinds true
+    ((compositeNodes exRot exKinds true exO exT none).map (fun l => l.map (fun n => (n, b "<" ++ n.name ++ b ">" ++ n.text ++ b "</" ++ n.name ++ b ">"))))
+    obOk = some "wf-printed" := by decide
+/-- a rotation the table formats differently is a different `transform`: the main shape of component 2 is rejected -/
+example : Spec.Svg.checkSVG (fun _ => b "91.000000") exO exT (some [(2, 1)]) exKinds true
+    (withPrinted (compositeNodes exRot exKinds true exO exT (some [(2, 1)]))) obOk = some "main" := by decide
 
 end RawPanelVerif.C15
